@@ -246,10 +246,10 @@ package raft
 //@   ensures [C19.info-answer] istype(t, infoTask) ==> istype(TaskRes(TaskPtr(t)), Info)
 //@   ensures [C07.non-leader-keeps-log] old(r.state != Leader) && !istype(t, changeConfig) && !istype(t, inspect) ==> r.lastLogIndex == old(r.lastLogIndex) && r.commitIndex == old(r.commitIndex) && r.configs == old(r.configs) && r.term == old(r.term) && r.votedFor == old(r.votedFor) && r.state == old(r.state)
 //@   ensures [C19.commit-monotone] !istype(t, inspect) ==> r.commitIndex >= old(r.commitIndex)
-// the bootstrap arm is excluded: the (trusted, membership area) contract of (*storage).bootstrap leaves the term open when it
-// fails, and the code behind it does not keep the term either: setTerm(1) on a node that already adopted a term >= 2
-// trips assert(term > s.term) after the configuration entry has been appended (reported as a suspected defect)
-//@   ensures [C19.term-monotone] !istype(t, inspect) && !(istype(t, changeConfig) && old(r.state != Leader)) ==> r.term >= old(r.term)
+// (the bootstrap arm used to be excluded here: setTerm(1) on a node that had already adopted a higher term tripped an
+// assertion after the configuration entry was appended - D21, repaired; (*storage).bootstrap is now proved to keep the term)
+//@   requires [PA-inv.unbootstrapped-log-empty] r.configs.Latest.Index == 0 ==> r.lastLogIndex == 0
+//@   ensures [C19+C05.term-monotone] !istype(t, inspect) ==> r.term >= old(r.term)
 
 // ---------------------------------------------------------------------------
 // NOT CONTRACTED (reported): (*leader).checkReplUpdates and (*Raft).runBatch.
